@@ -24,6 +24,7 @@ struct Hasher {
 
 struct Op { std::string name; long long k; };
 
+static long long checkevery = 1;     // observe all keys after every checkevery-th call only (large key universes)
 template<class V>
 static void run_one(int mode, long long nkeys, const std::vector<Op> &h, bool lastonly, const char *elem) {
 	blocks().reset(); addrs().reset();
@@ -52,7 +53,7 @@ static void run_one(int mode, long long nkeys, const std::vector<Op> &h, bool la
 			}
 			Ev ev("Op");
 			ev.str("name", o.name).i("k", o.k).i("res", res);
-			bool chk = !lastonly || i + 1 == h.size();
+			bool chk = (!lastonly && (i % checkevery) == 0) || i + 1 == h.size();
 			ev.i("chk", chk ? 1 : 0);
 			if(chk) {
 				bool lo = ledger_on(); ledger_on() = false;
@@ -95,6 +96,7 @@ int main(int argc, char **argv) {
 	int mode = a.num("hash", 0);
 	long long nkeys = a.num("nkeys", 11), from = a.num("from", 0);
 	bool lastonly = a.has("lastonly");
+	checkevery = a.num("checkevery", 1);
 	auto go = [&](const std::vector<Op> &h, long long nk) { if(tracked) run_one<Tracked>(mode, nk, h, lastonly, "tracked"); else run_one<long long>(mode, nk, h, lastonly, "int"); };
 	if(a.has("random")) {
 		long long cnt = a.num("random", 5), len = a.num("len", 400);
